@@ -1373,10 +1373,14 @@ def t_methods( ctx ):
     # (b), (c) the builders
     for qn, ctxs in sorted( _BUILDER_CONTEXT.items()):
         b = src.get( qn )
+        # the request artifact: the local handed to req_send as request= ( a role, not a name )
+        REQ = next(( k_.value.id for c_ in ast.walk( b ) if is_call_to( c_, 'req_send' ) for k_ in c_.keywords if k_.arg == 'request' and isinstance( k_.value, ast.Name )), None )
+        if REQ is None:
+            raise AnalysisError( '%s: req_send( request=<local> ... ) not found' % qn )
         stores = []					# ( key, value node, stmt )
         for s_ in ast.walk( b ):
             if isinstance( s_, ast.Assign ) and len( s_.targets ) == 1 and isinstance( s_.targets[0], ast.Attribute ) \
-               and isinstance( s_.targets[0].value, ast.Name ) and s_.targets[0].value.id == 'req' and s_.targets[0].attr != 'path':
+               and isinstance( s_.targets[0].value, ast.Name ) and s_.targets[0].value.id == REQ and s_.targets[0].attr != 'path':
                 stores.append(( s_.targets[0].attr, s_.value, s_ ))
         got = [ k for k, v, s_ in stores ]
         want_keys = [ k for k, f in ctxs ]
@@ -1414,7 +1418,7 @@ def t_methods( ctx ):
         c = sends[0]
         g = src.parent.get( src.parent.get( c ))
         kw = { k.arg: k.value for k in c.keywords if k.arg }
-        wantkw = { 'request': 'req', 'route_path': 'route_path', 'send_path': 'send_path', 'sender_context': 'sender_context', 'timeout': 'timeout' }
+        wantkw = { 'request': REQ, 'route_path': 'route_path', 'send_path': 'send_path', 'sender_context': 'sender_context', 'timeout': 'timeout' }
         wrong = [ a for a, n in wantkw.items() if not ( isinstance( kw.get( a ), ast.Name ) and kw[a].id == n ) ]
         if wrong:
             res.bad( src, c, '%s: req_send( %s )' % ( qn, ', '.join( '%s=%s' % ( a, norm_text( ast.unparse( kw[a] )) if a in kw else '<absent>' ) for a in wrong )),
